@@ -28,21 +28,24 @@ Record cst := mkC {
   cadded : bool;   (* harness: add_ctx has been attempted *)
   cregok : bool;   (* harness: that add_ctx returned 0 *)
   cclosed : bool;  (* the close callback ran (the harness closes the descriptor there) *)
-  coff : nat       (* bytes offered to the read callback so far *)
+  coff : nat;      (* bytes offered to the read callback so far *)
+  crst : bool      (* sockets: the peer has RESET the connection (closed with SO_LINGER 0 / with unread data): the
+                      kernel reports ERR and HUP as well, and the read behind the pending data fails with
+                      ECONNRESET instead of returning 0 *)
 }.
 
-Definition c0 (k : kind) : cst := mkC k 0 false true false false false false false 0.
+Definition c0 (k : kind) : cst := mkC k 0 false true false false false false false 0 false.
 
 Inductive action :=
 | AWrite (y k : nat) | AHclose (y : nat) | APclose (y : nat) | AAdd (y : nat)
-| AShut (y : nat) | AWake | AExit.
+| AShut (y : nat) | AWake | AExit | AReset (y : nat).
 
 Record trigger := mkT { tctx : nat; tbytes : nat; tact : action }.
 
 (* callback trace; EAct res: 0 = ok, 1 = skip, 2 = rejected *)
 Inductive ev :=
 | ERead (x n : nat) | EClose (x : nat) | EWake | EClear (x : nat) | EExit
-| EAct (a : action) (res : nat).
+| EAct (a : action) (res : nat) | ETimer.
 
 Record st := mkS {
   bk : backend;
@@ -59,21 +62,25 @@ Record st := mkS {
   sset : list nat;                (* select: allset *)
   ereg : list nat;                (* epoll: interest list, in registration order *)
   erdl : list nat;                (* epoll: ready list (pending edges), in order *)
-  ecap : nat                      (* epoll: capacity = maxevents *)
+  ecap : nat;                     (* epoll: capacity = maxevents *)
+  tmr : bool;                     (* muggle_evloop_set_timer_interval(0) + a timer callback: a tick after every pass *)
+  tphases : list (list action)    (* harness: timer phases not run yet (the k-th tick runs the k-th one) *)
 }.
 
-Definition set_cx f s := mkS (bk s) f (clist s) (trigs s) (phases s) (idle s) (wk s) (toexit s) (tr s) (parr s) (pcap s) (sset s) (ereg s) (erdl s) (ecap s).
-Definition set_clist l s := mkS (bk s) (cx s) l (trigs s) (phases s) (idle s) (wk s) (toexit s) (tr s) (parr s) (pcap s) (sset s) (ereg s) (erdl s) (ecap s).
-Definition set_trigs l s := mkS (bk s) (cx s) (clist s) l (phases s) (idle s) (wk s) (toexit s) (tr s) (parr s) (pcap s) (sset s) (ereg s) (erdl s) (ecap s).
-Definition set_phases l s := mkS (bk s) (cx s) (clist s) (trigs s) l (idle s) (wk s) (toexit s) (tr s) (parr s) (pcap s) (sset s) (ereg s) (erdl s) (ecap s).
-Definition set_idle b s := mkS (bk s) (cx s) (clist s) (trigs s) (phases s) b (wk s) (toexit s) (tr s) (parr s) (pcap s) (sset s) (ereg s) (erdl s) (ecap s).
-Definition set_wk n s := mkS (bk s) (cx s) (clist s) (trigs s) (phases s) (idle s) n (toexit s) (tr s) (parr s) (pcap s) (sset s) (ereg s) (erdl s) (ecap s).
-Definition set_toexit b s := mkS (bk s) (cx s) (clist s) (trigs s) (phases s) (idle s) (wk s) b (tr s) (parr s) (pcap s) (sset s) (ereg s) (erdl s) (ecap s).
-Definition set_tr l s := mkS (bk s) (cx s) (clist s) (trigs s) (phases s) (idle s) (wk s) (toexit s) l (parr s) (pcap s) (sset s) (ereg s) (erdl s) (ecap s).
-Definition set_parr l s := mkS (bk s) (cx s) (clist s) (trigs s) (phases s) (idle s) (wk s) (toexit s) (tr s) l (pcap s) (sset s) (ereg s) (erdl s) (ecap s).
-Definition set_sset l s := mkS (bk s) (cx s) (clist s) (trigs s) (phases s) (idle s) (wk s) (toexit s) (tr s) (parr s) (pcap s) l (ereg s) (erdl s) (ecap s).
-Definition set_ereg l s := mkS (bk s) (cx s) (clist s) (trigs s) (phases s) (idle s) (wk s) (toexit s) (tr s) (parr s) (pcap s) (sset s) l (erdl s) (ecap s).
-Definition set_erdl l s := mkS (bk s) (cx s) (clist s) (trigs s) (phases s) (idle s) (wk s) (toexit s) (tr s) (parr s) (pcap s) (sset s) (ereg s) l (ecap s).
+Definition set_cx f s := mkS (bk s) f (clist s) (trigs s) (phases s) (idle s) (wk s) (toexit s) (tr s) (parr s) (pcap s) (sset s) (ereg s) (erdl s) (ecap s) (tmr s) (tphases s).
+Definition set_clist l s := mkS (bk s) (cx s) l (trigs s) (phases s) (idle s) (wk s) (toexit s) (tr s) (parr s) (pcap s) (sset s) (ereg s) (erdl s) (ecap s) (tmr s) (tphases s).
+Definition set_trigs l s := mkS (bk s) (cx s) (clist s) l (phases s) (idle s) (wk s) (toexit s) (tr s) (parr s) (pcap s) (sset s) (ereg s) (erdl s) (ecap s) (tmr s) (tphases s).
+Definition set_phases l s := mkS (bk s) (cx s) (clist s) (trigs s) l (idle s) (wk s) (toexit s) (tr s) (parr s) (pcap s) (sset s) (ereg s) (erdl s) (ecap s) (tmr s) (tphases s).
+Definition set_idle b s := mkS (bk s) (cx s) (clist s) (trigs s) (phases s) b (wk s) (toexit s) (tr s) (parr s) (pcap s) (sset s) (ereg s) (erdl s) (ecap s) (tmr s) (tphases s).
+Definition set_wk n s := mkS (bk s) (cx s) (clist s) (trigs s) (phases s) (idle s) n (toexit s) (tr s) (parr s) (pcap s) (sset s) (ereg s) (erdl s) (ecap s) (tmr s) (tphases s).
+Definition set_toexit b s := mkS (bk s) (cx s) (clist s) (trigs s) (phases s) (idle s) (wk s) b (tr s) (parr s) (pcap s) (sset s) (ereg s) (erdl s) (ecap s) (tmr s) (tphases s).
+Definition set_tr l s := mkS (bk s) (cx s) (clist s) (trigs s) (phases s) (idle s) (wk s) (toexit s) l (parr s) (pcap s) (sset s) (ereg s) (erdl s) (ecap s) (tmr s) (tphases s).
+Definition set_parr l s := mkS (bk s) (cx s) (clist s) (trigs s) (phases s) (idle s) (wk s) (toexit s) (tr s) l (pcap s) (sset s) (ereg s) (erdl s) (ecap s) (tmr s) (tphases s).
+Definition set_sset l s := mkS (bk s) (cx s) (clist s) (trigs s) (phases s) (idle s) (wk s) (toexit s) (tr s) (parr s) (pcap s) l (ereg s) (erdl s) (ecap s) (tmr s) (tphases s).
+Definition set_ereg l s := mkS (bk s) (cx s) (clist s) (trigs s) (phases s) (idle s) (wk s) (toexit s) (tr s) (parr s) (pcap s) (sset s) l (erdl s) (ecap s) (tmr s) (tphases s).
+Definition set_erdl l s := mkS (bk s) (cx s) (clist s) (trigs s) (phases s) (idle s) (wk s) (toexit s) (tr s) (parr s) (pcap s) (sset s) (ereg s) l (ecap s) (tmr s) (tphases s).
+
+Definition set_tphases l s := mkS (bk s) (cx s) (clist s) (trigs s) (phases s) (idle s) (wk s) (toexit s) (tr s) (parr s) (pcap s) (sset s) (ereg s) (erdl s) (ecap s) (tmr s) l.
 
 Definition emit (e : ev) (s : st) : st := set_tr (e :: tr s) s.
 Definition updc (x : nat) (c : cst) (s : st) : st :=
@@ -99,9 +106,11 @@ Definition ev_hup (c : cst) : bool :=
   match ckind c with
   | KPipe => ceof c
   | KUnix => negb (cpopen c) || csht c
-  | KTcp => csht c
+  | KTcp => csht c || crst c
   end.
-Definition events_c (c : cst) : nat := (if ev_in c then 1 else 0) + (if ev_hup c then 2 else 0).
+Definition ev_err (c : cst) : bool := match ckind c with KPipe => false | _ => crst c end.
+Definition events_c (c : cst) : nat :=
+  (if ev_in c then 1 else 0) + (if ev_hup c then 2 else 0) + (if ev_err c then 4 else 0).
 Definition events (s : st) (x : nat) : nat :=
   if Nat.eqb x 0 then (if Nat.ltb 0 (wk s) then 1 else 0) else events_c (cx s x).
 
@@ -127,6 +136,8 @@ Definition add_ctx (x : nat) (s : st) : st * bool :=
 (* ---------------------------------------------------------------- scripted actions (harness rules) *)
 Definition can_write (c : cst) : bool := cpopen c && negb (ceof c) && negb (csht c) && negb (cclosed c).
 Definition is_pipe (c : cst) : bool := match ckind c with KPipe => true | _ => false end.
+(* harness rule: a reset is provoked only on a socket whose peer is open and which was not shut down / closed *)
+Definition can_reset (c : cst) : bool := cpopen c && negb (is_pipe c) && negb (csht c) && negb (cclosed c).
 Definition is_tcp (c : cst) : bool := match ckind c with KTcp => true | _ => false end.
 
 Definition do_act (a : action) (s : st) : st :=
@@ -134,37 +145,48 @@ Definition do_act (a : action) (s : st) : st :=
   | AWrite y k =>
       let c := cx s y in
       if can_write c then
-        let s1 := updc y (mkC (ckind c) (cq c + k) (ceof c) (cpopen c) (csht c) (cflag c) (cadded c) (cregok c) (cclosed c) (coff c)) s in
+        let s1 := updc y (mkC (ckind c) (cq c + k) (ceof c) (cpopen c) (csht c) (cflag c) (cadded c) (cregok c) (cclosed c) (coff c) (crst c)) s in
         emit (EAct a 0) (if Nat.eqb k 0 then s1 else edge y s1)      (* a 0-byte write is no system call *)
       else emit (EAct a 1) s
   | AHclose y =>
       let c := cx s y in
       if cpopen c && negb (ceof c) then
-        emit (EAct a 0) (edge y (updc y (mkC (ckind c) (cq c) true (negb (is_pipe c)) (csht c) (cflag c) (cadded c) (cregok c) (cclosed c) (coff c)) s))
+        emit (EAct a 0) (edge y (updc y (mkC (ckind c) (cq c) true (negb (is_pipe c)) (csht c) (cflag c) (cadded c) (cregok c) (cclosed c) (coff c) (crst c)) s))
       else emit (EAct a 1) s
   | APclose y =>
       let c := cx s y in
       if cpopen c then
-        let s1 := updc y (mkC (ckind c) (cq c) true false (csht c) (cflag c) (cadded c) (cregok c) (cclosed c) (coff c)) s in
+        let s1 := updc y (mkC (ckind c) (cq c) true false (csht c) (cflag c) (cadded c) (cregok c) (cclosed c) (coff c) (crst c)) s in
         emit (EAct a 0) (if is_tcp c && ceof c then s1 else edge y s1)
       else emit (EAct a 1) s
   | AAdd y =>
       let c := cx s y in
       if cadded c || Nat.eqb y 0 then emit (EAct a 1) s
       else
-        let (s1, ok) := add_ctx y (updc y (mkC (ckind c) (cq c) (ceof c) (cpopen c) (csht c) (cflag c) true (cregok c) (cclosed c) (coff c)) s) in
+        let (s1, ok) := add_ctx y (updc y (mkC (ckind c) (cq c) (ceof c) (cpopen c) (csht c) (cflag c) true (cregok c) (cclosed c) (coff c) (crst c)) s) in
         let c1 := cx s1 y in
         emit (EAct a (if ok then 0 else 2))
-             (updc y (mkC (ckind c1) (cq c1) (ceof c1) (cpopen c1) (csht c1) (cflag c1) (cadded c1) ok (cclosed c1) (coff c1)) s1)
+             (updc y (mkC (ckind c1) (cq c1) (ceof c1) (cpopen c1) (csht c1) (cflag c1) (cadded c1) ok (cclosed c1) (coff c1) (crst c1)) s1)
   | AShut y =>                                   (* muggle_ev_ctx_shutdown *)
       let c := cx s y in
       if cclosed c then emit (EAct a 1) s
       else
         let sock := negb (is_pipe c) in
-        let s1 := updc y (mkC (ckind c) (cq c) (ceof c) (cpopen c) (csht c || sock) true (cadded c) (cregok c) (cclosed c) (coff c)) s in
+        let s1 := updc y (mkC (ckind c) (cq c) (ceof c) (cpopen c) (csht c || sock) true (cadded c) (cregok c) (cclosed c) (coff c) (crst c)) s in
         emit (EAct a 0) (if sock then edge y s1 else s1)
   | AWake => emit (EAct a 0) (edge 0 (set_wk (S (wk s)) s))      (* muggle_evloop_wakeup *)
-  | AExit => emit (EAct a 0) (set_toexit true s)                  (* muggle_evloop_exit, loop thread *)
+  (* muggle_evloop_exit on the loop's (or, before run, the creating) thread: to_exit = EXIT and, in
+     both branches of the code, muggle_evloop_wakeup - so that an exit requested before run() lets the
+     first kernel call return and the loop performs exactly one pass *)
+  | AExit => emit (EAct a 0) (edge 0 (set_wk (S (wk s)) (set_toexit true s)))
+  (* the peer resets the connection (sockets only): like a close of the peer, but the kernel reports ERR and HUP
+     too and the read behind the pending data returns ECONNRESET - muggle_ev_ctx_read flags the context CLOSED on
+     that error exactly as on end of file (Properties: gen_loop_matches_model, muggle_ev_ctx_read) *)
+  | AReset y =>
+      let c := cx s y in
+      if can_reset c then
+        emit (EAct a 0) (edge y (updc y (mkC (ckind c) (cq c) true false (csht c) (cflag c) (cadded c) (cregok c) (cclosed c) (coff c) true) s))
+      else emit (EAct a 1) s
   end.
 
 Definition do_acts (l : list action) (s : st) : st := fold_left (fun s a => do_act a s) l s.
@@ -179,7 +201,7 @@ Definition cb_read (x : nat) (s : st) : st :=
   let n := cq c in
   let eofnow := if is_pipe c then ceof c else ceof c || csht c in
   let off := coff c + n in
-  let s1 := updc x (mkC (ckind c) 0 (ceof c) (cpopen c) (csht c) (cflag c || eofnow) (cadded c) (cregok c) (cclosed c) off) s in
+  let s1 := updc x (mkC (ckind c) 0 (ceof c) (cpopen c) (csht c) (cflag c || eofnow) (cadded c) (cregok c) (cclosed c) off (crst c)) s in
   let s2 := emit (ERead x n) s1 in
   let fire := filter (trig_hit x off) (trigs s2) in
   let keep := filter (fun t => negb (trig_hit x off t)) (trigs s2) in
@@ -187,12 +209,12 @@ Definition cb_read (x : nat) (s : st) : st :=
 
 Definition set_flag (x : nat) (s : st) : st :=      (* muggle_ev_ctx_set_flag(ctx, CLOSED) *)
   let c := cx s x in
-  updc x (mkC (ckind c) (cq c) (ceof c) (cpopen c) (csht c) true (cadded c) (cregok c) (cclosed c) (coff c)) s.
+  updc x (mkC (ckind c) (cq c) (ceof c) (cpopen c) (csht c) true (cadded c) (cregok c) (cclosed c) (coff c) (crst c)) s.
 
 (* close callback of the harness (closes the descriptor) *)
 Definition cb_close (x : nat) (s : st) : st :=
   let c := cx s x in
-  emit (EClose x) (updc x (mkC (ckind c) (cq c) (ceof c) (cpopen c) (csht c) (cflag c) (cadded c) (cregok c) true (coff c)) s).
+  emit (EClose x) (updc x (mkC (ckind c) (cq c) (ceof c) (cpopen c) (csht c) (cflag c) (cadded c) (cregok c) true (coff c) (crst c)) s).
 
 (* muggle_evloop_*_handle_wakeup when the signal fd is readable: clearup, wake callback
    (harness: the idle wake callback runs the next phase, or exits after the last one) *)
@@ -345,8 +367,19 @@ Definition dispatch (rep : list (nat * nat)) (n : nat) (s : st) : st :=
   | BEpoll => dispatch_epoll rep s
   end.
 
+(* timer callback of the harness: the k-th tick runs the k-th timer phase, the tick after the last one exits *)
+Definition cb_timer (s : st) : st :=
+  let s1 := emit ETimer s in
+  match tphases s1 with
+  | p :: rest => do_acts p (set_tphases rest s1)
+  | [] => do_act AExit s1
+  end.
+
+(* one iteration of the back-end loop: the kernel call, the pass, then (interval 0: after EVERY pass, also one
+   in which the kernel had nothing to report) the timer tick; to_exit is tested afterwards ([run]) *)
 Definition iter (o : oent) (s : st) : st :=
-  dispatch (orep o) (on o) (if oidle o then inject s else s).
+  let s1 := dispatch (orep o) (on o) (if oidle o then inject s else s) in
+  if tmr s1 then cb_timer s1 else s1.
 
 (* muggle_evloop_run after the back-end loop returned: clear callbacks in list order, exit callback *)
 Definition finish (s : st) : st :=
@@ -372,7 +405,8 @@ Definition kern (s : st) : list (nat * nat) :=
 (* one kernel call as the wrapped harness sees it: idle detection, then the report *)
 Definition kern_o (s : st) : oent :=
   match kern s with
-  | [] => let s1 := inject s in mkO true (kern s1) (length (kern s1))
+  | [] => if tmr s then mkO false [] 0       (* a timer is running: the kernel call times out (n = 0), no idle wake-up *)
+          else let s1 := inject s in mkO true (kern s1) (length (kern s1))
   | r => mkO false r (length r)
   end.
 
@@ -397,7 +431,9 @@ Record script := mkScr {
   s_hints : nat;
   s_kinds : list (nat * kind);        (* declared contexts *)
   s_phases : list (list action);      (* phase 0 first *)
-  s_trigs : list trigger              (* sorted by (threshold, line) *)
+  s_trigs : list trigger;             (* sorted by (threshold, line) *)
+  s_timer : bool;                     (* a timer (interval 0) is installed *)
+  s_tphases : list (list action)      (* timer phases *)
 }.
 
 Definition kind_of (ks : list (nat * kind)) (x : nat) : kind :=
@@ -408,7 +444,7 @@ Definition kind_of (ks : list (nat * kind)) (x : nat) : kind :=
 Definition init (b : backend) (sc : script) : st :=
   let h := if Nat.ltb (s_hints sc) 1 then 8 else s_hints sc in
   mkS b (fun x => c0 (kind_of (s_kinds sc) x)) [] (s_trigs sc) (tl (s_phases sc)) false 0 false []
-      [(0, 0)] (S h) [0] [] [] (S h).
+      [(0, 0)] (S h) [0] [] [] (S h) (s_timer sc) (s_tphases sc).
 
 (* phase 0 runs before muggle_evloop_run; epoll's run() then registers the signal fd *)
 Definition start (b : backend) (sc : script) : st :=
@@ -428,7 +464,7 @@ Definition is_clear_of (x : nat) (e : ev) : bool := match e with EClear y => Nat
 Definition outcome (s : st) (x : nat) : nat * bool * bool :=
   (coff (cx s x), cclosed (cx s x), existsb (is_clear_of x) (tr s)).
 
-Definition all_actions (sc : script) : list action := concat (s_phases sc) ++ map tact (s_trigs sc).
+Definition all_actions (sc : script) : list action := concat (s_phases sc) ++ map tact (s_trigs sc) ++ concat (s_tphases sc).
 Definition act_writes_to (y : nat) (a : action) : nat :=
   match a with AWrite z k => if Nat.eqb z y then k else 0 | _ => 0 end.
 Definition total_w (sc : script) (y : nat) : nat :=
@@ -440,11 +476,11 @@ Definition total_w (sc : script) (y : nat) : nat :=
    that same context; no more contexts than hints_max_fd *)
 Definition trig_ok (sc : script) (t : trigger) : bool :=
   match tact t with
-  | AExit => false
+  | AExit | AReset _ => false
   | AShut y => Nat.eqb y (tctx t) && Nat.leb (total_w sc y) (tbytes t)
   | _ => true
   end.
-Definition phase_act_ok (a : action) : bool := match a with AExit | AShut _ => false | _ => true end.
+Definition phase_act_ok (a : action) : bool := match a with AExit | AShut _ | AReset _ => false | _ => true end.
 Definition targets_term (y : nat) (a : action) : bool :=
   match a with AHclose z | APclose z => Nat.eqb z y | _ => false end.
 Definition targets_any (y : nat) (a : action) : bool :=
@@ -457,10 +493,10 @@ Definition term_ok (sc : script) (y : nat) : bool :=
 Definition in_S (sc : script) : bool :=
   forallb (trig_ok sc) (s_trigs sc) && forallb phase_act_ok (concat (s_phases sc)) &&
   forallb (fun p => term_ok sc (fst p)) (s_kinds sc) &&
-  Nat.leb (length (s_kinds sc)) (if Nat.ltb (s_hints sc) 1 then 8 else s_hints sc).
+  Nat.leb (length (s_kinds sc)) (if Nat.ltb (s_hints sc) 1 then 8 else s_hints sc) && negb (s_timer sc).
 
 (* the replay findings/C13-cross-shutdown.case *)
 Definition witness_cross_shutdown : script :=
   mkScr 8 [(1, KUnix); (2, KUnix); (3, KUnix)]
         [[AAdd 3; AAdd 2; AAdd 1; AWrite 1 5; AWrite 3 5]]
-        [mkT 1 5 (AWrite 2 7); mkT 1 5 (AShut 2)].
+        [mkT 1 5 (AWrite 2 7); mkT 1 5 (AShut 2)] false [].
